@@ -10,7 +10,7 @@
 
    [render M p sh s] is the text produced on rendering path [p] for the value with secret [s]
    held in container shape [sh]; [opaque] is the method table read from the Go source. *)
-From Verif Require Import Common.Base Generated.C14Opaque Generated.C14Tls C14.Model C14.Proofs C14.UseModel C14.UseProofs.
+From Verif Require Import Common.Base Generated.C14Opaque Generated.C14Tls C14.Model C14.Proofs C14.UseModel C14.UseProofs C14.Harness C14.Clauses C14.Link.
 From Coq Require Import String Ascii.
 Local Open Scope string_scope.
 
@@ -94,13 +94,17 @@ Theorem json_map_key_reveals : forall s,
   render opaque PJson SMapKey s = "{" ++ json_quote true s ++ ":" ++ dquote ++ "v" ++ dquote ++ "}".
 Proof. exact json_map_key_l. Qed.
 
-(* marshalling into a configuration map: an ARRAY of opaque strings is left as the typed Go value
-   (finding C14-CONFMAP-ARRAY: the map does not hold the marker there, for any secret) ... *)
-Theorem confmap_array_not_redacted : forall s,
-  render opaque PConfmap (SField true (SArray SBare)) s = "{f:<raw [1]configopaque.String>}".
+(* marshalling into a configuration map: arrays are encoded element by element like slices (repair
+   b32d82269 of finding C14-CONFMAP-ARRAY; the old failing input is the first conjunct), and NOTHING
+   typed is left in the map: every leaf of an encoded configuration is a plain string *)
+Theorem confmap_array_redacted : forall s,
+  render opaque PConfmap (SField true (SArray SBare)) s = "{f:[" ++ dquote ++ "[REDACTED]" ++ dquote ++ "]}".
 Proof. exact confmap_array_l. Qed.
 
-(* ... while the typed content that a NESTED struct implementing confmap.Marshaler merges into its
+Theorem confmap_no_typed_leaf : forall M sh s t, conf_tree M sh s = COk t -> no_raw t = true.
+Proof. exact conf_no_typed_leaf_l. Qed.
+
+(* the typed content that a NESTED struct implementing confmap.Marshaler merges into its
    Conf is run through the encoder and comes out as the marker (in general: render_noninterference_partial
    and render_shows_marker cover [SMarsh] at any nesting) *)
 Theorem confmap_nested_marshaler_redacted : forall s,
@@ -180,6 +184,21 @@ Theorem grpc_metadata_if_absent : forall cfg existing k,
   md_get (grpc_add_headers cfg existing) (lower_s k) = md_get existing (lower_s k).
 Proof. exact grpc_keeps_l. Qed.
 
+(* WITHOUT the hypothesis that the configured keys stay distinct once canonicalised / lower-cased
+   (Go only guarantees distinct RAW keys; the real code accepts "x-tok" next to "X-Tok"): HTTP sends,
+   under the shared canonical key, the secret of ONE of the colliding entries (whichever Go's map order
+   puts last), gRPC sends ALL of them — never anything that was not configured for that key *)
+Theorem http_header_is_a_configured_secret : forall cfg h k v,
+  In (k, v) cfg ->
+  exists k' v', In (k', v') cfg /\ canon_mime k' = canon_mime k /\
+                hget (http_set_all cfg h) (canon_mime k) = Some v'.
+Proof. exact set_all_some. Qed.
+
+Theorem grpc_metadata_contains_secret : forall cfg existing k v,
+  In (k, v) cfg -> md_get existing (lower_s k) = [] ->
+  In v (md_get (grpc_add_headers cfg existing) (lower_s k)).
+Proof. exact grpc_contains_l. Qed.
+
 (* ... and the consumers, which by then hold the PLAIN secrets, give back the next layer's result
    untouched: the error of a failed request (logged and propagated by exporters) is the transport's /
    invoker's error and does not depend on the configured headers *)
@@ -197,6 +216,16 @@ Theorem tls_error_independent_of_contents : forall c1 c2 e,
   tls_error_text (load_certificate c1) e = tls_error_text (load_certificate c2) e.
 Proof. exact tls_error_ni_l. Qed.
 
+(* Validate() of the configuration structs (run and printed at collector start-up): its verdict and
+   error text are decided by the non-opaque settings and do not depend on the header values / PEM contents *)
+Theorem validate_independent_of_secrets : forall b k h1 h2 e,
+  grpc_client_validate b k h1 = grpc_client_validate b k h2 /\ http_client_validate e h1 = http_client_validate e h2.
+Proof. exact validate_ni_l. Qed.
+
+Theorem tls_validate_independent_of_contents : forall f p1 c1 k1 p2 c2 k2,
+  nonempty p1 = nonempty p2 -> tls_validate f p1 c1 k1 = tls_validate f p2 c2 k2.
+Proof. exact tls_validate_ni_l. Qed.
+
 (* configtls: the PEM fields, when they are the configured source, reach tls.X509KeyPair byte for
    byte; and whatever the loader gets "from PEM" is the field *)
 Theorem tls_loader_gets_pem : forall c,
@@ -208,6 +237,19 @@ Theorem tls_loaded_pem_is_field : forall c cert key,
   load_certificate c = TlsPair cert key ->
   (forall b, cert = FromPem b -> b = t_CertPem c) /\ (forall b, key = FromPem b -> b = t_KeyPem c).
 Proof. exact tls_pem_only_l. Qed.
+
+(* the CA pool (Config.loadCACertPool): a configured ca_pem reaches x509 byte for byte; the text of a
+   load error depends on which sources are configured and on x509's verdict, never on the bytes *)
+Theorem ca_pem_reaches_pool : forall p, p <> "" -> load_ca "" p = CaFrom (FromPem p).
+Proof. exact ca_pem_l. Qed.
+
+Theorem ca_error_independent_of_contents : forall f1 p1 f2 p2 ok,
+  nonempty f1 = nonempty f2 -> nonempty p1 = nonempty p2 ->
+  ca_error_text (load_ca f1 p1) ok = ca_error_text (load_ca f2 p2) ok.
+Proof. exact ca_error_ni_l. Qed.
+
+Theorem load_ca_is_generated : forall f p, load_ca f p = load_ca_gen f p.
+Proof. exact load_ca_gen_l. Qed.
 
 (* OBLIGATIONS tying the hand-written presence predicates of Config.loadCertificate to the ones
    translator T1 regenerates from configtls.go on every run (Generated/C14Tls.v) *)
@@ -226,26 +268,82 @@ Proof. exact load_certificate_gen_l. Qed.
 
 (* ---- "unmarshalling stores the secret unchanged" ----------------------------------------------
    FULL statement: forall u t, unmarshal opaque u t = Stored t (with pre-/-post around t for the
-   inline expansion).  FALSE of the faithful model: findings C14-SQUASH-REMARSHAL
-   (squash_unmarshaler_stores_marker) and C14-EXPAND-POINTER (expanded_pointer_gets_parsed_value).
-   PROVED (partial) for every other decoding context: json, yaml, confmap plain / nested
-   Unmarshaler / squashed plain, and a text that comes from a provider expansion into a scalar
-   field, a map value or a slice element — whatever the text looks like to YAML. *)
+   inline expansion).  FALSE of the faithful model only for a POINTER target of a provider expansion:
+   finding C14-EXPAND-POINTER (expanded_pointer_gets_parsed_value).  PROVED for every other decoding
+   context: json, yaml, confmap plain / nested Unmarshaler / squashed plain / squashed Unmarshaler
+   (unmarshal_stores_squashed_unmarshaler: repair 02a3505c0 of finding C14-SQUASH-REMARSHAL), and a
+   text that comes from a provider expansion into a scalar field, a map value or a slice element —
+   directly or through Conf.Sub — whatever the text looks like to YAML. *)
 Theorem unmarshal_stores_partial : forall M u t, plain_ctx u = true -> unmarshal M u t = Stored t.
 Proof. exact unmarshal_partial_l. Qed.
 
 Theorem unmarshal_inline_expansion : forall M t, unmarshal M UExpInline t = Stored ("pre-" ++ t ++ "-post").
 Proof. exact unmarshal_inline_l. Qed.
 
-Theorem unmarshal_stores_refuted : exists u t, u <> UExpInline /\ unmarshal opaque u t <> Stored t.
+(* taking the component's section with Conf.Sub first changes nothing (the expanded values keep their
+   original text through Sub) *)
+Theorem unmarshal_through_sub : forall M u t,
+  unmarshal M (UViaSub u) t = unmarshal M u t /\ plain_ctx (UViaSub u) = plain_ctx u.
+Proof. exact unmarshal_sub_l. Qed.
+
+Theorem unmarshal_stores_refuted : exists u t, is_inline u = false /\ unmarshal opaque u t <> Stored t.
 Proof. exact unmarshal_refuted_l. Qed.
 
-Theorem squash_unmarshaler_stores_marker : forall t, unmarshal opaque UConfSquashUnmarshaler t = Stored marker.
+Theorem unmarshal_stores_squashed_unmarshaler : forall M t, unmarshal M UConfSquashUnmarshaler t = Stored t.
 Proof. exact unmarshal_squash_l. Qed.
 
 Theorem expanded_pointer_gets_parsed_value : forall M t,
   unmarshal M (UExpPtr YNull) t = NilPtr /\ unmarshal M (UExpPtr YOther) t = DecodeError.
 Proof. exact unmarshal_ptr_l. Qed.
+
+(* ---- the decidable clause checker run over every recorded case of the implementation ---------------
+   [prop_ok c = true] iff the recorded behaviour [c] satisfies the clauses above in their observable
+   form (C14/Clauses.v): on the safe region no rendering shows the secret (raw or hex) and verbatim
+   renderings contain "[REDACTED]"; plain decoding contexts stored the text; every configured header
+   arrived as exactly its secret; PEM-only TLS configurations loaded the configured pair; the error
+   of a failed request shows no configured value. *)
+Theorem clause_checker_sound : forall c, prop_ok c = true <-> Clause c.
+Proof. exact prop_ok_sound. Qed.
+
+(* ---- the checker and the theorems speak about the same thing ------------------------------------------
+   Whatever the MODEL produces passes the clause checker ([obs_*] build the recorded-case term from the
+   model's own run as the harnesses build it from the implementation's): the checker never demands more
+   than the theorems deliver.  Guards: [frame_free] (the secret is not, by coincidence, part of the
+   secret-independent text that is rendered for the empty secret: a type name, "map[", the hex of the
+   marker ...) for renderings; for error texts, that the next layer's / the fixed message text does not
+   itself contain a configured value.  No guard for decoding, headers, metadata, TLS. *)
+Theorem model_renderings_pass_the_checker : forall sh s paths,
+  frame_free sh s paths = true -> prop_ok (obs_render sh s paths) = true.
+Proof. exact (fun sh s paths F => proj2 (Nat.eqb_eq _ _) (model_passes_render sh s paths F)). Qed.
+
+Theorem model_decoding_passes_the_checker : forall u t, prop_ok (obs_unm u t) = true.
+Proof. exact (fun u t => proj2 (Nat.eqb_eq _ _) (model_passes_unmarshal u t)). Qed.
+
+Theorem model_use_passes_the_checker : forall cfg pre host existing extra c s cf cp kf kp,
+  prop_ok (obs_http_client cfg pre host extra) = true /\ prop_ok (obs_http_server cfg extra) = true /\
+  prop_ok (obs_grpc cfg existing extra) = true /\ prop_ok (CUse c (A s) (A (use c s))) = true /\
+  prop_ok (CTls cf cp kf kp (tls_obs cf cp kf kp)) = true.
+Proof.
+  exact (fun cfg pre host existing extra c s cf cp kf kp =>
+    conj (proj2 (Nat.eqb_eq _ _) (model_passes_http_client cfg pre host extra))
+   (conj (proj2 (Nat.eqb_eq _ _) (model_passes_http_server cfg extra))
+   (conj (proj2 (Nat.eqb_eq _ _) (model_passes_grpc cfg existing extra))
+   (conj (proj2 (Nat.eqb_eq _ _) (model_passes_use c s))
+         (proj2 (Nat.eqb_eq _ _) (model_passes_tls cf cp kf kp)))))).
+Qed.
+
+Theorem model_give_back_passes_the_checker : forall g cfg baseline w arg fl,
+  (fail_ok cfg baseline = true ->
+   prop_ok (CFail g (encA cfg) (A baseline)
+                  (A (match (if g then grpc_call_result else http_client_result) cfg (Fail baseline) with
+                      | Fail e => e | Done x => x end))) = true) /\
+  (fail_ok cfg (validate_text w arg fl cfg) = true ->
+   prop_ok (CValidate w (A arg) fl (encA cfg) (A (validate_text w arg fl cfg))) = true).
+Proof.
+  exact (fun g cfg baseline w arg fl =>
+    conj (fun H => proj2 (Nat.eqb_eq _ _) (model_passes_fail g cfg baseline H))
+         (fun H => proj2 (Nat.eqb_eq _ _) (model_passes_validate w arg fl cfg H))).
+Qed.
 
 Print Assumptions opaque_method_set_is_expected.
 Print Assumptions opaque_methods_ignore_receiver.
@@ -261,15 +359,17 @@ Print Assumptions fmt_unrouted_verb_reveals_any_flags.
 Print Assumptions fmt_unexported_field_reveals.
 Print Assumptions fmt_inner_pointer_reveals.
 Print Assumptions json_map_key_reveals.
-Print Assumptions confmap_array_not_redacted.
+Print Assumptions confmap_array_redacted.
+Print Assumptions confmap_no_typed_leaf.
 Print Assumptions confmap_nested_marshaler_redacted.
 Print Assumptions render_shows_marker.
 Print Assumptions opaque_leaf_is_marker.
 Print Assumptions opaque_render_shows_redacted.
 Print Assumptions explicit_conversion_identity.
 Print Assumptions unmarshal_stores_partial.
+Print Assumptions unmarshal_through_sub.
 Print Assumptions unmarshal_stores_refuted.
-Print Assumptions squash_unmarshaler_stores_marker.
+Print Assumptions unmarshal_stores_squashed_unmarshaler.
 Print Assumptions actual_use_identity.
 Print Assumptions http_client_header_is_secret.
 Print Assumptions http_client_host_is_secret.
@@ -278,9 +378,21 @@ Print Assumptions http_response_header_is_secret.
 Print Assumptions http_other_headers_untouched.
 Print Assumptions grpc_metadata_is_secret.
 Print Assumptions grpc_metadata_if_absent.
+Print Assumptions http_header_is_a_configured_secret.
+Print Assumptions grpc_metadata_contains_secret.
+Print Assumptions ca_pem_reaches_pool.
+Print Assumptions ca_error_independent_of_contents.
+Print Assumptions load_ca_is_generated.
+Print Assumptions clause_checker_sound.
+Print Assumptions model_renderings_pass_the_checker.
+Print Assumptions model_decoding_passes_the_checker.
+Print Assumptions model_use_passes_the_checker.
+Print Assumptions model_give_back_passes_the_checker.
 Print Assumptions consumer_result_is_next_layers.
 Print Assumptions consumer_result_independent_of_secrets.
 Print Assumptions tls_error_independent_of_contents.
+Print Assumptions validate_independent_of_secrets.
+Print Assumptions tls_validate_independent_of_contents.
 Print Assumptions tls_loader_gets_pem.
 Print Assumptions tls_loaded_pem_is_field.
 Print Assumptions tls_pem_presence_is_generated.
